@@ -75,6 +75,10 @@ type Ctx struct {
 	// statusSeen is set by the read loop once the response has carried :status.
 	statusSeen bool
 
+	// bodyStream is set by the write loop when the request body comes from a
+	// reader: once sent, such a request cannot be sent again.
+	bodyStream bool
+
 	// timer is the cancel timer, kept with the Ctx so that reusing one does not
 	// mean allocating a timer and a closure per request.
 	timer *time.Timer
